@@ -4,7 +4,7 @@
    Statements only; every theorem is closed by [exact] of a lemma of Proofs/AttServer.v.
    The model (Model/AttServer.v) is of the code after fixes/D10a..D10e.patch. *)
 From Coq Require Import ZArith List Bool.
-From BV Require Import Gen.C10Tables Model.AttServer Proofs.AttServer.
+From BV Require Import Gen.C10Tables Gen.C10Skeleton Model.AttServer Model.AttSkeleton Proofs.AttServer.
 Import ListNotations.
 Open Scope Z_scope.
 
@@ -18,6 +18,117 @@ Open Scope Z_scope.
 Theorem C10_tables_match_source : tables_match = true.
 Proof. vm_compute. reflexivity. Qed.
 Print Assumptions C10_tables_match_source.
+
+(* ..._matches_source: every function the model renders reads today, after normalisation
+   (docstrings, logging, annotations, comments, layout removed), exactly as in the frozen
+   reading Model/AttSkeleton.v the model was written from -- every size constant
+   (att_mtu - 1/2/3/4/6, min(..., 251/253)), comparison operator, loop exit, await of
+   read_value / write_value, error code and response constructor, in program order.  An edit
+   to the shape of this code breaks the obligation of that function whether or not a generated
+   input exercises it.  Regenerated into Gen/C10Skeleton.v and re-checked on every run. *)
+Theorem C10_src_Device_on_gatt_pdu : src_matches k_Device_on_gatt_pdu = true.
+Proof. vm_compute. reflexivity. Qed.
+Print Assumptions C10_src_Device_on_gatt_pdu.
+
+Theorem C10_src_att_request_handler : src_matches k_att_request_handler = true.
+Proof. vm_compute. reflexivity. Qed.
+Print Assumptions C10_src_att_request_handler.
+
+Theorem C10_src_Server_register_eatt : src_matches k_Server_register_eatt = true.
+Proof. vm_compute. reflexivity. Qed.
+Print Assumptions C10_src_Server_register_eatt.
+
+Theorem C10_src_Server_send_gatt_pdu : src_matches k_Server_send_gatt_pdu = true.
+Proof. vm_compute. reflexivity. Qed.
+Print Assumptions C10_src_Server_send_gatt_pdu.
+
+Theorem C10_src_Server_get_attribute : src_matches k_Server_get_attribute = true.
+Proof. vm_compute. reflexivity. Qed.
+Print Assumptions C10_src_Server_get_attribute.
+
+Theorem C10_src_Server_read_cccd : src_matches k_Server_read_cccd = true.
+Proof. vm_compute. reflexivity. Qed.
+Print Assumptions C10_src_Server_read_cccd.
+
+Theorem C10_src_Server_write_cccd : src_matches k_Server_write_cccd = true.
+Proof. vm_compute. reflexivity. Qed.
+Print Assumptions C10_src_Server_write_cccd.
+
+Theorem C10_src_Server_send_response : src_matches k_Server_send_response = true.
+Proof. vm_compute. reflexivity. Qed.
+Print Assumptions C10_src_Server_send_response.
+
+Theorem C10_src_Server_notify_single_subscriber : src_matches k_Server_notify_single_subscriber = true.
+Proof. vm_compute. reflexivity. Qed.
+Print Assumptions C10_src_Server_notify_single_subscriber.
+
+Theorem C10_src_Server_indicate_single_bearer : src_matches k_Server_indicate_single_bearer = true.
+Proof. vm_compute. reflexivity. Qed.
+Print Assumptions C10_src_Server_indicate_single_bearer.
+
+Theorem C10_src_Server_on_invalid_gatt_pdu : src_matches k_Server_on_invalid_gatt_pdu = true.
+Proof. vm_compute. reflexivity. Qed.
+Print Assumptions C10_src_Server_on_invalid_gatt_pdu.
+
+Theorem C10_src_Server_on_gatt_pdu : src_matches k_Server_on_gatt_pdu = true.
+Proof. vm_compute. reflexivity. Qed.
+Print Assumptions C10_src_Server_on_gatt_pdu.
+
+Theorem C10_src_Server_on_att_request : src_matches k_Server_on_att_request = true.
+Proof. vm_compute. reflexivity. Qed.
+Print Assumptions C10_src_Server_on_att_request.
+
+Theorem C10_src_Server_on_att_exchange_mtu_request : src_matches k_Server_on_att_exchange_mtu_request = true.
+Proof. vm_compute. reflexivity. Qed.
+Print Assumptions C10_src_Server_on_att_exchange_mtu_request.
+
+Theorem C10_src_Server_on_att_find_information_request : src_matches k_Server_on_att_find_information_request = true.
+Proof. vm_compute. reflexivity. Qed.
+Print Assumptions C10_src_Server_on_att_find_information_request.
+
+Theorem C10_src_Server_on_att_find_by_type_value_request : src_matches k_Server_on_att_find_by_type_value_request = true.
+Proof. vm_compute. reflexivity. Qed.
+Print Assumptions C10_src_Server_on_att_find_by_type_value_request.
+
+Theorem C10_src_Server_on_att_read_by_type_request : src_matches k_Server_on_att_read_by_type_request = true.
+Proof. vm_compute. reflexivity. Qed.
+Print Assumptions C10_src_Server_on_att_read_by_type_request.
+
+Theorem C10_src_Server_on_att_read_request : src_matches k_Server_on_att_read_request = true.
+Proof. vm_compute. reflexivity. Qed.
+Print Assumptions C10_src_Server_on_att_read_request.
+
+Theorem C10_src_Server_on_att_read_blob_request : src_matches k_Server_on_att_read_blob_request = true.
+Proof. vm_compute. reflexivity. Qed.
+Print Assumptions C10_src_Server_on_att_read_blob_request.
+
+Theorem C10_src_Server_on_att_read_by_group_type_request : src_matches k_Server_on_att_read_by_group_type_request = true.
+Proof. vm_compute. reflexivity. Qed.
+Print Assumptions C10_src_Server_on_att_read_by_group_type_request.
+
+Theorem C10_src_Server_on_att_read_multiple_request : src_matches k_Server_on_att_read_multiple_request = true.
+Proof. vm_compute. reflexivity. Qed.
+Print Assumptions C10_src_Server_on_att_read_multiple_request.
+
+Theorem C10_src_Server_on_att_read_multiple_variable_request : src_matches k_Server_on_att_read_multiple_variable_request = true.
+Proof. vm_compute. reflexivity. Qed.
+Print Assumptions C10_src_Server_on_att_read_multiple_variable_request.
+
+Theorem C10_src_Server_on_att_write_request : src_matches k_Server_on_att_write_request = true.
+Proof. vm_compute. reflexivity. Qed.
+Print Assumptions C10_src_Server_on_att_write_request.
+
+Theorem C10_src_Server_on_att_write_command : src_matches k_Server_on_att_write_command = true.
+Proof. vm_compute. reflexivity. Qed.
+Print Assumptions C10_src_Server_on_att_write_command.
+
+Theorem C10_src_Server_on_att_handle_value_confirmation : src_matches k_Server_on_att_handle_value_confirmation = true.
+Proof. vm_compute. reflexivity. Qed.
+Print Assumptions C10_src_Server_on_att_handle_value_confirmation.
+
+Theorem C10_src_ATT_PDU_from_bytes : src_matches k_ATT_PDU_from_bytes = true.
+Proof. vm_compute. reflexivity. Qed.
+Print Assumptions C10_src_ATT_PDU_from_bytes.
 
 (* request_one_reply: for every server state (any database, any bearer, any subscription and
    indication state; [st] includes, per attribute, what its value object does on read and on
@@ -119,6 +230,47 @@ Proof.
 Qed.
 Print Assumptions C10_one_indication_outstanding.
 
+(* Several bearers on one server ([msrv]: the database plus one record per bearer; see
+   Props/C11.v for locality).  Over every history of stimuli on any bearers, on EACH bearer
+   an indication is transmitted only when no earlier indication on that bearer awaits its
+   confirmation; a confirmation received on one bearer releases nothing on another. *)
+Theorem C10_one_indication_outstanding_per_bearer : forall db max_mtu bs ops n outs,
+  23 <= max_mtu -> Forall (fun b => 23 <= b_mtu b) bs ->
+  mrun (minit db max_mtu bs) ops = Some (n, outs) ->
+  mind_ok (map bs_pending (m_bs (minit db max_mtu bs))) ops outs = true.
+Proof.
+  intros db max_mtu bs ops n outs Hx Hb Hr.
+  exact (mrun_ind_ok ops _ n outs (minit_ok db max_mtu bs Hx Hb) Hr).
+Qed.
+Print Assumptions C10_one_indication_outstanding_per_bearer.
+
+(* what a stimulus on bearer i makes the server send fits bearer i's ATT_MTU, whatever the
+   other bearers' ATT_MTUs and states are, and every bearer keeps its invariant *)
+Theorem C10_several_bearers_le_mtu : forall m i o n out x,
+  Forall (bst_inv m) (m_bs m) -> mstep m i o = Some (n, out) -> nth_error (m_bs m) i = Some x ->
+  (forall y, nth_error (m_bs n) i = Some y -> b_mtu (bs_b x) <= b_mtu (bs_b y) \/ bs_waiting y = []) ->
+  all_le (b_mtu (bs_b x)) out /\ Forall (bst_inv n) (m_bs n).
+Proof. exact mstep_le_mtu. Qed.
+Print Assumptions C10_several_bearers_le_mtu.
+
+(* Bursts: several PDUs handed to the bearer before the event loop runs again (plain handlers
+   and the malformed / handler-less branches act at once, task-wrapped handlers afterwards in
+   arrival order, an indication released by a confirmation last -- Model: [burst]).  Every
+   request of the burst is answered exactly once and nothing else is: as many PDUs as there
+   are requests, none of them an indication, each no longer than the ATT_MTU in force when it
+   was sent (an Exchange MTU Request inside the burst changes it for the handlers that run
+   later); besides, at most the oldest waiting indication is released. *)
+Theorem C10_burst_one_reply_each : forall st l st' out rel,
+  23 <= mtu_of st -> 23 <= s_max_mtu st -> burst st l = Some (st', out, rel) ->
+  len out = count_requests l /\ Forall burst_out_ok out /\
+  (rel = [] \/ exists p w, rel = [p] /\ s_waiting st = p :: w).
+Proof. exact burst_spec. Qed.
+Print Assumptions C10_burst_one_reply_each.
+
+Theorem C10_burst_total : forall st l, exists r, burst st l = Some r.
+Proof. exact burst_total. Qed.
+Print Assumptions C10_burst_total.
+
 (* the model has a defined outcome for every history: no PDU falls outside it *)
 Theorem C10_model_total : forall st ops, exists st' outs, run st ops = Some (st', outs).
 Proof. intros st ops. exact (run_total ops st). Qed.
@@ -147,5 +299,10 @@ Example C10_nonvacuous :
    option_map snd (rx st' 18 [2; 0; 1]) = Some [[19]] /\
    option_map snd (run st' [Rx 18 [2; 0; 1; 0]; Rx 10 [2; 0]; Rx 18 [2; 0; 7]; Rx 10 [2; 0]]) =
      Some [(23, [[19]]); (23, [[11; 1; 0]]); (23, [[19]]); (23, [[11; 1; 0]])]) /\
-  mtu_kept st [Indicate 3 None true; Rx 2 [100; 0]; Rx 30 []] = true.
+  mtu_kept st [Indicate 3 None true; Rx 2 [100; 0]; Rx 30 []] = true /\
+  (* a burst: Read Request, Exchange MTU 100, Read Multiple Variable, malformed Read Blob: the MTU
+     response and the INVALID_PDU error go at once, the two reads follow and already use ATT_MTU 100 *)
+  option_map (fun r => map (fun mp => (fst mp, firstn 2 (snd mp), List.length (snd mp))) (snd (fst r)))
+    (burst st [(10, [3; 0]); (2, [100; 0]); (32, [3; 0; 3; 0; 3; 0]); (12, [3])]) =
+  Some [(23, [3; 5], 3%nat); (100, [1; 12], 5%nat); (100, [11; 65], 11%nat); (100, [33; 10], 37%nat)].
 Proof. vm_compute. repeat split. Qed.
